@@ -163,20 +163,35 @@ fn classes_of(v: &Value) -> Vec<String> { v.as_array().unwrap().iter().map(|c| c
 //------------ Building snapshots ----------------------------------------------
 
 #[derive(Clone, Debug)]
-enum Prov { Tal(String), Slurm(Option<String>) }
+enum Prov {
+    Tal(String),
+    Slurm(Option<String>),
+    /// Published under two TALs and asserted locally as well (a chain of three sources).
+    Chain(String, String),
+}
 
 fn time(y: i32) -> Time { Time::utc(y, 1, 2, 3, 4, 5) }
 
+fn publish_info(name: &str, n: usize) -> Arc<PublishInfo> {
+    Arc::new(PublishInfo {
+        tal: Arc::new(TalInfo::from_name(name.to_string())),
+        uri: Some(uri::Rsync::from_str(&format!("rsync://repo.example.net/module/ca/obj{n}.roa")).expect("uri")),
+        roa_validity: Validity::new(time(2024), time(2034)),
+        chain_validity: Validity::new(time(2025), time(2033)),
+        point_stale: time(2030),
+    })
+}
+
 fn info(p: &Prov, n: usize) -> PayloadInfo {
     match p {
-        Prov::Tal(name) => PayloadInfo::from(Arc::new(PublishInfo {
-            tal: Arc::new(TalInfo::from_name(name.clone())),
-            uri: Some(uri::Rsync::from_str(&format!("rsync://repo.example.net/module/ca/obj{n}.roa")).expect("uri")),
-            roa_validity: Validity::new(time(2024), time(2034)),
-            chain_validity: Validity::new(time(2025), time(2033)),
-            point_stale: time(2030),
-        })),
+        Prov::Tal(name) => PayloadInfo::from(publish_info(name, n)),
         Prov::Slurm(comment) => PayloadInfo::from(Arc::new(ExceptionInfo { path: None, comment: comment.clone() })),
+        Prov::Chain(name, comment) => {
+            let mut res = PayloadInfo::from(publish_info(name, n));
+            res.add_published(publish_info("other", n + 100));
+            res.add_local(Arc::new(ExceptionInfo { path: None, comment: Some(comment.clone()) }));
+            res
+        }
     }
 }
 
@@ -591,9 +606,20 @@ fn excerpt(text: &str) -> String {
 /// Which label classes already proved fatal for (format, field) on their own.
 type Fatal = HashMap<(String, &'static str), BTreeSet<String>>;
 
+/// The formats that write the label of `field` at all.
+fn label_reaches(fmt: &str, field: &str) -> bool {
+    match field {
+        "ta" => matches!(fmt, "csv" | "csvcompat" | "json" | "jsonext" | "slurm" | "slurm2" | "rpsl"),
+        _ => fmt == "jsonext",
+    }
+}
+
 fn label_sig(fatal: &Fatal, fmt: &str, field: &'static str, classes: &[String]) -> String {
     let special: Vec<&String> = classes.iter().filter(|c| *c != "plain" && *c != "uni").collect();
-    if special.is_empty() { return format!("{fmt}/malformed") }
+    // not the label's doing: it is harmless, is not written by this format, or the format is broken anyway
+    if special.is_empty() || !label_reaches(fmt, field) || fatal.contains_key(&(fmt.to_string(), "*")) {
+        return format!("{fmt}/malformed")
+    }
     if let Some(set) = fatal.get(&(fmt.to_string(), field)) {
         if let Some(c) = special.iter().find(|c| set.contains(**c)) { return format!("{fmt}/{field}/{c}") }
     }
@@ -647,7 +673,10 @@ impl C21<'_> {
                 };
                 if let Some((field, classes, fatal)) = label {
                     let special: Vec<&String> = classes.iter().filter(|c| *c != "plain" && *c != "uni").collect();
-                    if special.len() == 1 || (special.len() > 1 && special.iter().all(|c| *c == special[0])) {
+                    if special.is_empty() || !label_reaches(&fmt.name, field) {
+                        fatal.entry((fmt.name.clone(), "*")).or_default().insert("broken".into());
+                    }
+                    else if special.iter().all(|c| *c == special[0]) {
                         fatal.entry((fmt.name.clone(), field)).or_default().insert(special[0].clone());
                     }
                 }
@@ -695,7 +724,9 @@ impl C21<'_> {
         let lab = |n: usize| self.benign[(idx + n) % self.benign.len()].clone();
         let items: Vec<(&UItem, Prov)> = d.iter().flat_map(|(t, v)| v.iter().map(move |id| (*t, *id))).enumerate().map(|(n, key)| {
             let it = &self.uni.items[&key];
-            let p = if it.prov == "tal" { Prov::Tal(format!("ta{}", lab(n))) } else { Prov::Slurm(Some(lab(n))) };
+            let p = if it.prov != "tal" { Prov::Slurm(Some(lab(n))) }
+                else if idx % 5 == 0 { Prov::Chain(format!("ta{}", lab(n)), lab(n + 1)) }
+                else { Prov::Tal(format!("ta{}", lab(n))) };
             (it, p)
         }).collect();
         let snap = Arc::new(snapshot(&items, idx % 2 == 1));
@@ -769,7 +800,7 @@ fn slurm_of(items: &[(&UItem, Prov)]) -> LocalExceptions {
     let mut prefix = Vec::new();
     let mut bgpsec = Vec::new();
     for (it, p) in items {
-        let comment = match p { Prov::Slurm(c) => c.clone(), Prov::Tal(_) => None };
+        let comment = match p { Prov::Slurm(c) => c.clone(), _ => None };
         match &it.payload {
             Payload::Origin(o) => {
                 let mut v = json!({"asn": o.asn.into_u32(), "prefix": pfx_str(o.prefix.prefix())});
@@ -1020,6 +1051,7 @@ fn c22(rep: &mut Report, http: &Http, strings: &[Vec<String>]) {
     let mut fatal: HashMap<(&str, &str), BTreeSet<String>> = HashMap::new();
     let sig_of = |fatal: &HashMap<(&str, &str), BTreeSet<String>>, doc: &'static str, field: &'static str, classes: &[String], need: &[&str]| -> String {
         let special: Vec<&String> = classes.iter().filter(|c| need.contains(&c.as_str())).collect();
+        if fatal.contains_key(&(doc, "*")) { return format!("{doc}/malformed") }   // unreadable with plain strings too
         if special.is_empty() {
             let other: Vec<&String> = classes.iter().filter(|c| *c != "plain").collect();
             return if other.is_empty() { format!("{doc}/malformed") } else { format!("{doc}/{field}/{}", other[0]) }
@@ -1054,6 +1086,7 @@ fn c22(rep: &mut Report, http: &Http, strings: &[Vec<String>]) {
                         Err(e) => {
                             let sig = sig_of(&fatal, "status", field, classes, &json_need);
                             if let Some(c) = single(classes, &json_need) { fatal.entry(("status", field)).or_default().insert(c); }
+                            if classes.iter().all(|c| c == "plain") { fatal.entry(("status", "*")).or_default().insert("broken".into()); }
                             let frag = fragment(&body, e.line(), e.column());
                             rep.violation("C22", &sig, format!("/api/v1/status is not valid JSON with {field} = {text:?}: {e}"),
                                 beh.clone(), json!({"error": e.to_string(), "fragment": frag}));
@@ -1088,6 +1121,7 @@ fn c22(rep: &mut Report, http: &Http, strings: &[Vec<String>]) {
                             Err(e) => {
                                 let sig = sig_of(&fatal, "metrics", field, classes, &prom_need);
                                 if let Some(c) = single(classes, &prom_need) { fatal.entry(("metrics", field)).or_default().insert(c); }
+                                if classes.iter().all(|c| c == "plain") { fatal.entry(("metrics", "*")).or_default().insert("broken".into()); }
                                 rep.violation("C22", &sig, format!("/metrics does not parse as Prometheus text format with {field} = {text:?}: {e}"),
                                     beh.clone(), json!({"error": e}));
                             }
